@@ -16,6 +16,7 @@ def run(c):
                  "bucket; the `vlan batch` id set accumulates over all lines; each module pairs the expand and collapse helpers of one vendor")
     c.does_not_decide = "simulate(cmds, S_old) == S_new and expand(collapse(S)) == S on all sets"
     r1(c)
+    r1_more(c)
     r2(c)
     r3(c)
     r4(c)
@@ -174,6 +175,78 @@ def r1(c):
                         f"in this module one VLAN id can be written by two rows of the same key ({restating[vendor]}), yet the removal set is built from the REMOVED rows without "
                         "subtracting the ids of the rows that stay (UNCHANGED): when only one of the two rows goes away (`vlan 10 / name x` dropped while `vlan 1,10,20` stays) the "
                         "VLAN is deleted although it is in both sets", key_text="removal-ignores-unchanged")
+
+
+def r1_more(c):
+    """two further necessary conditions of 'exactly the VLANs that differ', on the helper that parses rows and on the branch that re-enters a block"""
+    repo = c.repo
+    for vendor, modname in MODS.items():
+        m = repo.module(modname)
+        pa = repo.func(modname, "_parse_vlancfg_actions")
+        pv = Provenance(pa)
+        rets = [n for n in walk_no_nested(pa) if isinstance(n, ast.Return) and n.value is not None]
+        narrowed = None
+        for r in rets:
+            elts = r.value.elts if isinstance(r.value, ast.Tuple) else [r.value]
+            for e in elts:
+                v = pv.resolve_alias(e)
+                if (isinstance(v, ast.BinOp) and isinstance(v.op, (ast.Sub, ast.BitAnd))) or \
+                        (isinstance(v, ast.Call) and isinstance(v.func, ast.Attribute) and v.func.attr in ("difference", "intersection")) or \
+                        (isinstance(v, (ast.SetComp, ast.ListComp, ast.GeneratorExp)) and any(g.ifs for g in v.generators)):
+                    narrowed = (r, v)
+        c.check("C11.R1", narrowed is None, repo.loc(m, narrowed[0] if narrowed else pa), f"{vendor}._parse_vlancfg_actions/returns-what-the-rows-list",
+                f"the parsed set is narrowed before it is returned (`{norm(narrowed[1])[:60] if narrowed else ''}`): ids dropped here are invisible to the difference — a VLAN of that kind "
+                "present in one set only is neither added nor removed", key_text="parser-narrows")
+        fn = repo.func(modname, "_process_vlandb")
+        pvf = Provenance(fn)
+        gm = GuardMap(fn)
+        for y in walk_no_nested(fn):
+            if not (isinstance(y, ast.Yield) and isinstance(y.value, ast.Tuple) and len(y.value.elts) == 3):
+                continue
+            third = pvf.resolve_alias(y.value.elts[2])
+            flag = y.value.elts[0]
+            if not (isinstance(third, ast.Subscript) and isinstance(flag, ast.Constant) and flag.value is True):
+                continue
+            # re-entering a block of the REMOVED side (to take its options away): its children come from the REMOVED rows
+            if "REMOVED" not in _bucket_of(pvf, third.value):
+                continue
+            loops = [l for l in gm.in_loop(y) if isinstance(l, ast.For)]
+            ok = False
+            if loops:
+                it = pvf.resolve_alias(loops[-1].iter)
+                parts = []
+
+                def conj(e):
+                    e = pvf.resolve_alias(e)
+                    if isinstance(e, ast.BinOp) and isinstance(e.op, ast.BitAnd):
+                        conj(e.left)
+                        conj(e.right)
+                    elif isinstance(e, ast.Call) and isinstance(e.func, ast.Attribute) and e.func.attr == "intersection" and e.args:
+                        conj(e.func.value)
+                        for a in e.args:
+                            conj(a)
+                    elif isinstance(e, ast.Call) and call_name(e) in ("sorted", "list", "set", "tuple", "frozenset") and e.args:
+                        conj(e.args[0])
+                    else:
+                        parts.append(e)
+                conj(it)
+
+                def pos_bucket(e):
+                    """buckets the ids of `e` can come from: the subtrahend of a difference contributes nothing"""
+                    e = pvf.resolve_alias(e)
+                    if isinstance(e, ast.BinOp) and isinstance(e.op, ast.Sub):
+                        return pos_bucket(e.left)
+                    if isinstance(e, ast.Call) and isinstance(e.func, ast.Attribute) and e.func.attr == "difference":
+                        return pos_bucket(e.func.value)
+                    if isinstance(e, ast.BinOp) and isinstance(e.op, ast.BitOr):
+                        return pos_bucket(e.left) | pos_bucket(e.right)
+                    if isinstance(e, ast.Call) and call_name(e) in ("set", "sorted", "list", "frozenset") and e.args:
+                        return pos_bucket(e.args[0])
+                    return _bucket_of(pvf, e)
+                ok = len(parts) >= 2 and any(pos_bucket(p_) & {"ADDED", "UNCHANGED"} for p_ in parts)
+            c.check("C11.R1", ok, repo.loc(m, y), f"{vendor}._process_vlandb/reenter-only-staying-blocks", f"`{norm(y)[:70]}` re-enters the block of a removed row for every id of "
+                    f"`{norm(loops[-1].iter)[:50] if loops else '?'}`, not only for the ids that stay (∩ the new side): entering `vlan N` after `no vlan N` creates the VLAN again, so a VLAN "
+                    "of S_old − S_new survives", key_text="reenter-removed")
 
 
 RESET_WORDS = ("all", "none")
